@@ -108,6 +108,9 @@ func (h *hist) encU(p *univariate.Polynomial) string {
 	s := make([]string, len(cs))
 	for i, c := range cs {
 		s[i] = encElem(c)
+		// accessor results belong to the caller: scribble over them (C16: no sharing with the polynomial)
+		scribbleElem(c)
+		cs[i] = nil
 	}
 	return strings.Join(s, "/")
 }
@@ -132,7 +135,10 @@ func (h *hist) encB(p *bivariate.Polynomial) string {
 	ds := p.SortedDegrees()
 	s := make([]string, len(ds))
 	for i, d := range ds {
-		s[i] = fmt.Sprintf("%d:%d:%s", d[0], d[1], encElem(p.Coef(d)))
+		c := p.Coef(d)
+		s[i] = fmt.Sprintf("%d:%d:%s", d[0], d[1], encElem(c))
+		scribbleElem(c)
+		ds[i] = [2]uint{^uint(0), ^uint(0)}
 	}
 	return strings.Join(s, "/")
 }
@@ -156,6 +162,23 @@ func (h *hist) showB(p *bivariate.Polynomial) string {
 		}
 	}
 	return strconv.Itoa(home) + "#" + h.encB(p)
+}
+
+func encScr(e ff.Element) string {
+	s := encElem(e)
+	scribbleElem(e)
+	return s
+}
+
+// scribbleElem changes an element in place the way a caller owning it might
+func scribbleElem(e ff.Element) {
+	if e == nil {
+		return
+	}
+	defer func() { _ = recover() }()
+	e.Add(e.Copy().SetUnsigned(1))
+	e.Mult(e)
+	e.SetNeg()
 }
 
 func (h *hist) showGens(gs []*bivariate.Polynomial) string {
@@ -804,6 +827,18 @@ func (h *hist) step(line string) (out string) {
 		op = op[:i]
 	}
 	a0, a1, a2 := arg(1), arg(2), arg(3)
+	if op == "escr" {
+		// Elements() is a value-returning accessor: whatever the caller does to the returned objects and to the
+		// returned slice must not reach the field (e.g. its tables)
+		f := h.field(atIdx(t[0]))
+		es := f.Elements()
+		n := len(es)
+		for i, e := range es {
+			scribbleElem(e)
+			es[i] = nil
+		}
+		return "ok " + strconv.Itoa(n)
+	}
 	if op == "tables" {
 		f := h.field(atIdx(t[0]))
 		var mm []uint
@@ -902,7 +937,7 @@ func (h *hist) step(line string) (out string) {
 			for i, d := range ds {
 				ss[i] = strconv.Itoa(d)
 			}
-			return fmt.Sprintf("obs ld=%d lc=%s degs=%s n=%d z=%v o=%v m=%v s=%s", a.Ld(), encElem(a.Lc()),
+			return fmt.Sprintf("obs ld=%d lc=%s degs=%s n=%d z=%v o=%v m=%v s=%s", a.Ld(), encScr(a.Lc()),
 				strings.Join(ss, ","), a.NTerms(), a.IsZero(), a.IsOne(), a.IsMonomial(), a.String())
 		}
 	case 'q':
@@ -936,7 +971,7 @@ func (h *hist) step(line string) (out string) {
 			return "eq " + strconv.FormatBool(a.Equal(h.bs[regNum(a1)]))
 		case "obs":
 			ld := a.Ld()
-			return fmt.Sprintf("obs ld=%d:%d lc=%s z=%v m=%v lt=%s s=%s", ld[0], ld[1], encElem(a.Lc()),
+			return fmt.Sprintf("obs ld=%d:%d lc=%s z=%v m=%v lt=%s s=%s", ld[0], ld[1], encScr(a.Lc()),
 				a.IsZero(), a.IsMonomial(), h.encB(a.Lt()), a.String())
 		}
 	case 'i':
